@@ -3009,7 +3009,7 @@ same arguments.
         # always call the super-version so that the core options are set
         EupsCmd.addOptions(self)
 
-        self.clo.add_option("-c", "--current", dest="current", action="store_true", default=False,
+        self.clo.add_option("-c", "--current", dest="postTag", action="append_const", const="current",
                             help="same as --postTag=current")
         self.clo.add_option("-e", "--exact", dest="exact_version", action="store_true", default=False,
                             help="Consider the as-installed versions, not the dependencies in the table file ")
@@ -3035,11 +3035,6 @@ same arguments.
             versionName = self.args[1]
         else:
             versionName = None
-
-        if self.opts.current:
-            if not self.opts.postTag:
-                self.opts.postTag = []
-            self.opts.postTag += ['current']
 
         # as setup does: "-t None" and the default tags are dealt with before the VRO is first selected
         eups.Eups._processDefaultTags(self.opts)
